@@ -259,7 +259,7 @@ static void runNative(Ctx& c, Rng& rng, const char* kind, unsigned n, const char
 		kind, n, sizeof(typename HS::Item), (size_t)HS::ItemTraits::alignment, relocatable ? 1 : 0, tLogStart, fam, maxFast));
 	static const unsigned ranges[] = { 5, 12, 40, 150 };
 	const unsigned keyRange = ranges[rng.below(4)];
-	const unsigned nOps = c.thorough ? 2200 : 520;
+	const unsigned nOps = c.thorough ? 4000 : 700;
 	{
 		MM A, B;
 		RefMap refA, refB; std::map<uint32_t, uint32_t> tagA, tagB;
@@ -462,7 +462,7 @@ static void runNative(Ctx& c, Rng& rng, const char* kind, unsigned n, const char
 template<typename Key, typename Value, typename HashBucket, size_t tMaxFast, unsigned tLogStart>
 static void runNativeCfg(Ctx& c, Rng& rng, const char* kind, unsigned n, const char* keyName)
 {
-	unsigned runs = c.thorough ? 5 : 2;
+	unsigned runs = c.thorough ? 12 : 3;
 	for (unsigned run = 0; run < runs; ++run)
 		runNative<Key, Value, HashBucket, tMaxFast, tLogStart>(c, rng, kind, n, keyName, (unsigned)rng.below(6), run);
 }
@@ -480,6 +480,12 @@ static std::vector<std::pair<uint32_t, uint32_t>> contents(const W& w)
 	return v;
 }
 template<typename V> static V sorted(V v) { std::sort(v.begin(), v.end()); return v; }
+static std::string showPairs(const std::vector<std::pair<uint32_t, uint32_t>>& v)
+{
+	std::string r = "{";
+	for (size_t i = 0; i < v.size() && i < 24; ++i) r += fmt(i ? ",%u:%u" : "%u:%u", v[i].first, v[i].second);
+	return r + (v.size() > 24 ? ",...}" : "}");
+}
 
 template<typename W>
 static void checkWrapper(Ctx& c, W& A, const StdMM& ref, unsigned keyRange, const std::string& suite, const char* when)
@@ -522,7 +528,7 @@ static void runWrapper(Ctx& c, Rng& rng, bool open, unsigned fam, unsigned runNo
 		A.get_nested_container().GetHashTraits().GetLogStartBucketCount(), fam, maxFast));
 	static const unsigned ranges[] = { 4, 10, 30, 90 };
 	const unsigned keyRange = ranges[rng.below(4)];
-	const unsigned nOps = c.thorough ? 1600 : 420;
+	const unsigned nOps = c.thorough ? 3000 : 500;
 	StdMM refA, refB;
 	uint32_t serial = 1;
 	std::string history;
@@ -577,8 +583,9 @@ static void runWrapper(Ctx& c, Rng& rng, bool open, unsigned fam, unsigned runNo
 			}
 			else {
 				bool eq = (A == B);
-				if (eq != (a.k == 1)) c.fail("C08 wrapper ==: %s A and B hold %s multisets of pairs (A %zu pairs in %zu keys, B %zu pairs in %zu keys) but operator== answers %d",
-					suite.c_str(), a.k == 1 ? "the same" : "different", A.size(), A.get_nested_container().GetKeyCount(), B.size(), B.get_nested_container().GetKeyCount(), eq ? 1 : 0);
+				if (eq != (a.k == 1)) c.fail("C08 wrapper ==: %s A and B hold %s multisets of pairs (A %zu pairs in %zu keys, B %zu pairs in %zu keys) but operator== answers %d; A in iteration order = %s, B = %s",
+					suite.c_str(), a.k == 1 ? "the same" : "different", A.size(), A.get_nested_container().GetKeyCount(), B.size(), B.get_nested_container().GetKeyCount(), eq ? 1 : 0,
+					showPairs(contents(A)).c_str(), showPairs(contents(B)).c_str());
 				op = "weq"; res = eq ? "1" : "0";
 				c.stats.count(eq ? "wop.equal_true" : "wop.equal_false");
 				if (a.k == 1) c.stats.nontrivial(caseKey);
@@ -673,8 +680,8 @@ static void runWrapper(Ctx& c, Rng& rng, bool open, unsigned fam, unsigned runNo
 			if (out == "ok") for (size_t t = i; t < j; ++t) if (!stdEraseOne(refA, all[t].first, all[t].second)) c.fail("C08 wrapper erase(range): %s element unknown to std", suite.c_str());
 			{
 				auto now = sorted(contents(A)); std::vector<std::pair<uint32_t, uint32_t>> exp(refA.begin(), refA.end()); exp = sorted(exp);
-				if (now != exp) c.fail("C08 wrapper erase(range): %s erase of [%zu,%zu) out of %zu elements (%s, answer %s) left %zu elements, expected %zu (over- or under-erase)",
-					suite.c_str(), i, j, n0, byGroup ? "equal_range based" : "traversal based", out.c_str(), now.size(), exp.size());
+				if (now != exp) c.fail("C08 wrapper erase(range): %s erase of [%zu,%zu) out of %zu elements (%s, answer %s) left %zu elements, expected %zu (over- or under-erase); container before, in iteration order = %s",
+					suite.c_str(), i, j, n0, byGroup ? "equal_range based" : "traversal based", out.c_str(), now.size(), exp.size(), showPairs(all).c_str());
 			}
 			op = fmt("werange %zu %zu", i, j); res = out;
 			c.stats.count(out == "ok" ? (i == j ? "wop.erase_range_empty" : j == i + 1 ? "wop.erase_range_single" : wholeGroup ? "wop.erase_range_whole_key" : "wop.erase_range_all") : "wop.erase_range_refused");
@@ -694,7 +701,7 @@ static void runWrapper(Ctx& c, Rng& rng, bool open, unsigned fam, unsigned runNo
 			bool eq = (A == B);
 			bool e = sorted(contents(A)) == sorted(contents(B));
 			std::vector<std::pair<uint32_t, uint32_t>> ra(refA.begin(), refA.end()), rb(refB.begin(), refB.end());
-			if (eq != (sorted(ra) == sorted(rb)) || eq != e) c.fail("C08 wrapper ==: %s operator== answers %d but the multisets of pairs are %s (A %zu pairs, B %zu pairs)", suite.c_str(), eq ? 1 : 0, e ? "equal" : "different", A.size(), B.size());
+			if (eq != (sorted(ra) == sorted(rb)) || eq != e) c.fail("C08 wrapper ==: %s operator== answers %d but the multisets of pairs are %s (A %zu pairs, B %zu pairs); A in iteration order = %s, B = %s", suite.c_str(), eq ? 1 : 0, e ? "equal" : "different", A.size(), B.size(), showPairs(contents(A)).c_str(), showPairs(contents(B)).c_str());
 			if ((A != B) == eq) c.fail("C08 wrapper !=: %s operator!= inconsistent", suite.c_str());
 			op = "weq"; res = eq ? "1" : "0";
 			c.stats.count(eq ? "wop.equal_true" : "wop.equal_false");
@@ -734,7 +741,7 @@ int main(int argc, char** argv)
 		typedef momo::stdish::unordered_multimap_open<uint32_t, uint32_t, FamHasher> W2;
 		typedef momo::stdish::unordered_multimap<uint32_t, uint32_t> W3;
 		typedef momo::stdish::unordered_multimap_open<uint32_t, uint32_t> W4;
-		unsigned runs = c.thorough ? 5 : 2;
+		unsigned runs = c.thorough ? 10 : 3;
 		for (unsigned run = 0; run < runs; ++run) {
 			runWrapper<W1, true>(c, rng, false, (unsigned)rng.below(6), run);
 			runWrapper<W2, true>(c, rng, true, (unsigned)rng.below(6), run);
